@@ -12,7 +12,6 @@ headers are then mutated.
 
 This module also exports the helpers shared with C16u.py / C17u.py (driver build, driver runner, image model)."""
 import concurrent.futures
-import itertools
 import json
 import os
 import random
@@ -236,10 +235,10 @@ def gen_images(ctx):
                         v['bad'] = rnd.choice('zg')
                     img.append(v)
             im.add(n, kf, img, tag)
-    sample(3, 60000 if ctx.thorough else 5000, 2, 's3')
-    sample(4, 20000 if ctx.thorough else 1500, 2, 's4')
-    sample(4, 8000 if ctx.thorough else 500, 3, 's4k3')
-    sample(6, 4000 if ctx.thorough else 300, 3, 's6k3')
+    sample(3, 30000 if ctx.thorough else 5000, 2, 's3')
+    sample(4, 10000 if ctx.thorough else 1500, 2, 's4')
+    sample(4, 4000 if ctx.thorough else 500, 3, 's4k3')
+    sample(6, 2000 if ctx.thorough else 300, 3, 's6k3')
     # --- the MC quick space through the real code (thorough): N=3, two keys in different anchors, pay 1, esz in {0, 2} ----
     if ctx.thorough:
         vs = [slot_values(3, s, (1, 2), [U], [0, 2 * U], bad_meta=False) for s in range(3)]
